@@ -612,6 +612,46 @@ class Buffers:
         return b
 
 
+# process-wide persistence (one worker process serves a whole batch of cases): the same ARRAY object, the same PROFILE VIEW object
+# and the same RULE object are handed to the implementation again and again, refilled in place with the next case's contents.
+# A correct implementation cannot tell; one that caches by object identity, keeps state on the rule object, or writes into its
+# arguments shows up as a wrong answer on a later case.  VERIF_NO_PERSIST=1 switches it off (debugging aid).
+_PERSIST = {}
+_RULES = {}
+
+
+def persist(name, arr, of=None):
+    """the persistent argument object for `arr` (same name, shape, dtype, layout, wrapper -> same object, refilled in place);
+    `of` is the profile-class constructor (e.g. StrictCompleteProfile.of): the new contents are validated by it every time, but
+    the view object created on first use is the one returned"""
+    import numpy as np
+    arr = np.asarray(arr)
+    if os.environ.get("VERIF_NO_PERSIST") or arr.ndim == 0:
+        return of(arr) if of is not None else arr
+    key = (name, arr.shape, str(arr.dtype), bool(arr.flags["C_CONTIGUOUS"]), bool(arr.flags["F_CONTIGUOUS"]),
+           getattr(of, "__qualname__", None))
+    ent = _PERSIST.get(key)
+    if ent is None:
+        buf = np.array(arr, order="K") if (arr.flags["C_CONTIGUOUS"] or arr.flags["F_CONTIGUOUS"]) else arr
+        view = of(buf) if of is not None else buf
+        _PERSIST[key] = (buf, view)
+        return view
+    buf, view = ent
+    buf[...] = arr
+    if of is not None:
+        of(buf)          # validation of the new contents (raises exactly as a fresh construction would)
+    return view
+
+
+def persist_rule(key, factory):
+    """one rule object per configuration for the life of the worker process"""
+    if os.environ.get("VERIF_NO_PERSIST"):
+        return factory()
+    if key not in _RULES:
+        _RULES[key] = factory()
+    return _RULES[key]
+
+
 def nonliteral(s):
     """an equal but not interned copy of a string argument (as it would arrive from json, argv, a config file)"""
     return "".join(list(s)) if isinstance(s, str) else s
